@@ -37,6 +37,11 @@ package ratelimiter
 //@   let nx := smNext(t, N0, s.interval, requestedPermits)
 //@   let w := smWait(t, N0, s.interval, requestedPermits)
 //@   let refused := maxWaitTime != -1 && w > maxWaitTime
+//@   witness N0 := old(s.nextFreePermitTime)
+//@   witness I := s.interval
+//@   witness t := t
+//@   witness k := requestedPermits
+//@   witness maxWait := maxWaitTime
 //@   onwrite nextFreePermitTime: s.n := ite(t >= old(s.nextFreePermitTime), ediv(t, s.interval), old(s.n)) + requestedPermits
 //@   ensures [C05.smooth.refuse] refused ==> result == -1 && s.nextFreePermitTime == N0
 //@   ensures [C05.smooth.grant] !refused ==> result == w && s.nextFreePermitTime == nx
